@@ -4,7 +4,7 @@
    models DateModel (helper.go) and CropParamModel (cropparam.go); only statements, each closed by
    [exact lemma], and Print Assumptions. *)
 From Coq Require Import ZArith List Bool Ascii String Floats.
-From Hermes Require Import Util Num Calendar DateModel DateProofs PredDateModel CropParamModel CropParamProofs SoilModel SoilProofs RotaReaderModel RotaReaderProofs MeasModel MeasProofs CropSamples C13Proofs.
+From Hermes Require Import Util Num Calendar DateModel DateProofs PredDateModel CropParamModel CropParamProofs SoilModel SoilProofs RotaReaderModel RotaReaderProofs MeasModel MeasProofs CropSamples C13Proofs WeatherModel WeatherProofs.
 Local Open Scope Z_scope.
 
 (* the four date formats (with any separator of length <= 1) of one civil date are read as the
@@ -102,6 +102,23 @@ Example C13_measurement_nonvacuous :
             mi_nmess m = 1 /\ List.length (mi_cn1 m) = 17%nat /\ List.nth 16 (mi_cn1 m) PrimFloat.zero = PrimFloat.div 7.5%float 5%float.
 Proof. exact sample_meas_reads. Qed.
 
+(* weather layouts (imported from the C04 development, record level: WeatherModel / WeatherProofs): the
+   multi-year CSV reader and the day-of-year (CZ) reader build the same store from the same series when the
+   CSV mean temperature is (tmax + tmin) / 2; and two loads of the same day — one file per year vs a
+   multi-year layout — agree on every value, the mean temperature unless it is the missing-value sentinel
+   (the year-edge sentinel of the per-year layout is the known finding F21) *)
+Theorem C13_weather_csv_cz_agree : forall (T : Type) (NT : Num T) none corr sy nslots (ser : list (date * wrec T)),
+  (forall t r, In (t, r) ser -> w_tavg r = div (add (w_tmax r) (w_tmin r)) two) ->
+  read_multi none corr sy nslots (map (fun tr => csv_rec (fst tr) (snd tr)) ser)
+  = read_multi none corr sy nslots (map (fun tr => cz_rec (dy (fst tr)) (doy (fst tr)) (snd tr)) ser).
+Proof. exact @layouts_agree_multi. Qed.
+
+Theorem C13_weather_values_agree : forall (T : Type) (NT : Num T) none corr y d (r c1 c2 : wrec T),
+  normalised none corr y d r c1 -> normalised none corr y d r c2 ->
+  w_tmin c1 = w_tmin c2 /\ w_tmax c1 = w_tmax c2 /\ w_rh c1 = w_rh c2 /\ w_wind c1 = w_wind c2 /\
+  w_rad c1 = w_rad c2 /\ w_prec c1 = w_prec c2 /\ (eqb (w_tavg r) none = false -> w_tavg c1 = w_tavg c2).
+Proof. exact @normalised_agree. Qed.
+
 (* non-vacuity: a complete two-stage classic file satisfies every hypothesis of C13_crop_yaml_agree *)
 Example C13_nonvacuous :
   exists r, convert (T:=PrimFloat.float) sample_lines = Some r /\ r_nrkom r = 2 /\ r_nrentw r = 2 /\
@@ -116,3 +133,5 @@ Print Assumptions C13_bbch_difference_refuted.
 Print Assumptions C13_soil_agree.
 Print Assumptions C13_rotation_agree.
 Print Assumptions C13_measurement_agree.
+Print Assumptions C13_weather_csv_cz_agree.
+Print Assumptions C13_weather_values_agree.
